@@ -447,8 +447,37 @@ def events_not_dropped(chk, prog):
                 chk.check(returned, key + "/breakpoint-stops", "PC_BREAKPOINT taken but the call does not return in that step")
             else:
                 chk.ok()
+    # every executed instruction is followed, within the same step, by taking the controller's events: a step that ends
+    # (next instruction, or return to the host at a frame limit / time-out) with the events of its instruction still
+    # pending handles them only after the first instruction of the *next* call, i.e. differently for other slicings
+    cpu_steps = 0
+    for r in rs:
+        cidx = [i for i, e in enumerate(r.trace) if e.path in CPU]
+        for n, i in enumerate(cidx):
+            last = n + 1 == len(cidx)
+            if last and r.outcome != "return":
+                continue
+            end = len(r.trace) if last else cidx[n + 1]
+            cpu_steps += 1
+            taken = any(e.path == TAKE for e in r.trace[i + 1:end])
+            how = ("returns to the host (%s)" % describe_stop(r.ret)) if last else "goes on to the next instruction"
+            chk.check(taken, key + "/taken-every-step",
+                      "a step of emulate_frames %s without taking the events its instruction raised (take_events not called after Z80::emulate): "
+                      "a fast-load trap or breakpoint raised by the last instruction of a slice is handled one instruction late" % how)
     chk.count("event-steps", steps)
     chk.floor("event-steps", 8)
+    chk.count("cpu-steps", cpu_steps)
+    chk.floor("cpu-steps", 8)
+
+
+def describe_stop(ret):
+    try:
+        if ret.variant == 1:
+            return "Err"
+        info = ret.fields[0]
+        return "stop_reason variant %s" % getattr(info.fields[-1], "variant", "?")
+    except Exception:
+        return "?"
 
 
 def event_bit(prog, EV, name):
